@@ -361,13 +361,16 @@ def run(ctx):
             ctx.violation("C04", "denied-although-store-accepts:" + key, "user %r password %r..: store accepts, frontend denies" % (user[:40], pw[:24]))
     import clifam
     ncli = clifam.replay(ctx, "C04", only=lambda c: c["cmd"] == "authenticate")
+    # the same verdicts over TLS (https, ldaps), on a second saslauthd socket, and with other listeners unable to start
+    import listenfam
+    nlisten = listenfam.replay(ctx, "C04")
     cov = ctx.coverage
     cov.update({"states": res["distinct"] + cov.get("states", 0), "transitions": res["generated"], "traces_validated_against_impl": n, "evaluations": n,
-                "distinct_nontrivial": len(cases), "accepted": accepts, "concurrent_logins": nburst, "history_steps": nhist, "missing_member_probes": nmiss, "logins_under_upgrade_pressure": nup,
+                "distinct_nontrivial": len(cases), "accepted": accepts, "concurrent_logins": nburst, "history_steps": nhist, "missing_member_probes": nmiss, "listener_environment_probes": nlisten, "logins_under_upgrade_pressure": nup,
                 "rule": "every (transport, user-name class, password class) case of Frontends is instantiated with real bytes and submitted to "
                         "the running agent binary (saslauthd socket, HTTP basic-auth, JSON API, LDAP simple bind, CLI); the expected verdict is "
                         "store.Dir.Authenticate on the same directory for the name the module says the transport must use"})
     for e, user, pw, want, got, err in results[:3]:
         ctx.sample({"case": e["case"], "name_rule": e["name"], "limits": e["limits"], "store_verdict": want, "frontend_verdict": got})
-    ctx.assumptions += ["TLS listeners and systemd socket activation are not exercised",
+    ctx.assumptions += ["systemd socket activation (run-sa) and LDAP StartTLS are not exercised",
                         "the expected verdict comes from the library on the same directory; the library itself is judged by C01/C02"]
